@@ -360,6 +360,37 @@ def run(ck: Check):
                                      + ",".join(hx(a.encode()) for a in argv))
                         impl.append(("T" if got is True else "F" if got is False else str(got)) + " "
                                     + "|".join(",".join(hx(a.encode()) for a in c) for c in calls))
+            # repeat around repeat (the inner test is `repeat` itself, with another cookie): N x M runs at most, each
+            # with both cookies substituted by the outer / inner run number - judged by a nested reference loop
+            for n_out, n_in in ((2, 2), (2, 3), (3, 2)):
+                for seq in itertools.product("YN", repeat=n_out * n_in) if not quick else [tuple(x) for x in ("NNNN", "NNNY", "NNYN", "NYNN", "YNNN", "NNNNNY", "NNNYNN", "NNNNNN", "NNYNNN")]:
+                    if len(seq) != n_out * n_in:
+                        continue
+                    state.update(seq="".join(seq), i=0, inits=0)
+                    del calls[:]
+                    argv = ["o-OUT-i-IN", "plain", "IN/OUT"]
+                    args = ["-n", "OUT", str(n_out), "repeat", "-n", "IN", str(n_in), "lv_inner_test"] + argv
+                    try:
+                        got = repeat.interesting(args, "pfx")
+                    except BaseException as exc:  # pylint: disable=broad-except
+                        got = "raised " + type(exc).__name__
+                    want, wargs, k = False, [], 0
+                    for i_out in range(1, n_out + 1):
+                        for i_in in range(1, n_in + 1):
+                            wargs.append([a.replace("OUT", str(i_out)).replace("IN", str(i_in)) for a in argv])
+                            ok_ = seq[k] == "Y"
+                            k += 1
+                            if ok_:
+                                want = True
+                                break
+                        if want:
+                            break
+                    ck.count("repeat")
+                    ck.nontrivial(("repeat-nested", n_out, n_in, seq))
+                    if got is not want or calls != wargs:
+                        ck.violation(f"repeat {n_out} repeat {n_in} with inner answers {''.join(seq)}: got {got} after {len(calls)} calls "
+                                     f"{calls[:3]}..., expected {want} after {len(wargs)} calls {wargs[:3]}...",
+                                     {"module": "repeat", "nested": [n_out, n_in], "seq": "".join(seq), "calls": calls[:6]})
         finally:
             del sys.modules["lv_inner_test"]
     finally:
